@@ -22,6 +22,7 @@ def restore():
     ThreatSignature.matches = _REAL_TS_MATCHES
     TLRPattern.matches = _REAL_TLR_MATCHES
     MB.time = _REAL_TIME
+    MB.__dict__.pop("int", None)
     IN.datetime = _REAL_DT
 
 
@@ -77,6 +78,7 @@ ALL_OPS = ["filter_x", "filter_y", "learn", "forget", "import", "relax_threshold
 def _membrane(c, k, ops=None):
     clock = SymClock(c)
     MB.time = FakeTime(clock)
+    MB.int = core.sym_int            # int() of a clock-derived real stays symbolic
     mt = Matcher(c)
     mt.install(ThreatSignature)
     threshold = c.choice("threshold", LEVELS[1:])
